@@ -153,7 +153,9 @@ class BuiltinConnector(BaseConnector):
         Note:
             There are faster algorithms, but this is fine for now.
         """
-        return pfaffian(matrix)
+        # NOTE: The native implementation works in place on the memory of C-contiguous
+        # arrays, so a copy is passed in order not to overwrite the caller's matrix.
+        return pfaffian(self.fallback_np.array(matrix))
 
     def real_logm(self, matrix):
         """Calculates the real logarithm of a matrix.
